@@ -191,6 +191,33 @@ theorem connected_dist_length {A : Mat} {r : DistResult} (h : makeDist A = .ok r
     unfold Graph.selected; rw [hinf]; simp
   exact ⟨by rw [hw, hinf], by rw [hd, Graph.blockOf_length, hsel]; simp⟩
 
+/-- a connected graph keeps all its vertices, in order -/
+theorem kept_connected {A : Mat} (hc : Connected (adjOf A)) : kept A = List.range A.length := by
+  have hinf : Graph.hasInf (Graph.bfsAll (adjOf A)) = false :=
+    (Graph.hasInf_false_iff_connected (adjOf A) (Graph.adjOf_Symm A)).2 hc
+  unfold kept Graph.selected
+  rw [hinf]; simp
+
+/-- for a CONNECTED graph the block metric is the shortest-path metric of the whole graph -/
+theorem isBlockMetric_connected {A : Mat} (hc : Connected (adjOf A)) {n : ℕ} (d : Fin n → Fin n → ℕ) :
+    IsBlockMetric A d ↔ A.length = n ∧ ∀ a b : Fin n, IsDist (Adj (adjOf A)) a b (d a b) := by
+  unfold IsBlockMetric
+  rw [kept_connected hc]
+  have e : ∀ a : Fin n, A.length = n → (List.range A.length).getD a 0 = a := by
+    intro a h
+    have := a.isLt
+    simp [List.getD_eq_getElem?_getD, h]
+  constructor
+  · rintro ⟨h1, h2⟩
+    have hn : A.length = n := by simpa using h1
+    refine ⟨hn, fun a b => ?_⟩
+    have := h2 a b
+    rwa [e a hn, e b hn] at this
+  · rintro ⟨hn, h2⟩
+    refine ⟨by simpa using hn, fun a b => ?_⟩
+    rw [e a hn, e b hn]
+    exact h2 a b
+
 /-! ## the specification side -/
 
 theorem mGH_comm {n m : ℕ} [NeZero n] [NeZero m] (dX : Fin n → Fin n → ℕ) (dY : Fin m → Fin m → ℕ) :
